@@ -112,6 +112,11 @@ func (p *proxyConn) readRequest() (*http.Request, error) {
 	}
 
 	fixConnectReqContentLength(req)
+	if req.Method == http.MethodConnect {
+		// The content length of a CONNECT request is ignored, the bytes after the header are tunnel data.
+		// Drop the body, otherwise closing it would consume them.
+		req.Body = http.NoBody
+	}
 	if p.secure {
 		req.TLS = &p.cs
 	}
